@@ -51,7 +51,7 @@ func main() {
 		Rule: "grpc/json ammo over the example service's six methods (payload field combinations incl. json names, quoted " +
 			"numbers, defaults, int64 values beyond 2^53 and beyond the range; metadata maps; unknown methods; ill-typed " +
 			"payloads; mixed; >128 alternating rich/sparse entries) with 1..5 instances, shared client pools of 0..7 and " +
-			"timeouts 0/2/3/40/65/90/115 s, through the real engine and entry by entry in generated instance orders; gRPC " +
+			"timeouts 0/3/5/8/40/65/90/115 s, through the real engine and entry by entry in generated instance orders; gRPC " +
 			"scenarios (templated metadata/payload, per-shot users via [next], auth token chaining, the same call in " +
 			"several scenarios, names whose joined forms collide, a metadata key called payload, failing steps, sleeps " +
 			"adding up to more than the per-call timeout) shot by 1..4 real guns in generated instance orders and " +
